@@ -149,6 +149,25 @@ def star_scen(rng):
     return {"meta": meta, "sql": "SELECT had_changed(%s, *)%s AS a0 FROM stream" % ("true" if ign else "false", over), "rows": rows}
 
 
+def cols_scen(rng):
+    """had_changed(ign, c1, c2, c3): the listed columns one by one, NULLs and absent columns in any position of the list"""
+    ign = rng.choice([0, 1, 1, 1])
+    part = rng.choice(["", "k"])
+    cols = rng.choice([["a", "b"], ["a", "b", "c"], ["b", "a"]])
+    call = {"al": "a0", "fn": "had_changed_cols", "col": "a", "cols": cols, "off": 1, "hasdef": 0, "def": {"k": "null"}, "ign": ign, "start": 0, "reset": 0, "show": 1}
+    over = " OVER (PARTITION BY k)" if part else ""
+    rows = []
+    for i in range(rng.choice([6, 8, 10])):
+        r = {"id": i + 1}
+        if part: r["k"] = rng.choice(["p", "q"])
+        for c in ("a", "b", "c"):
+            x = rng.choice([1, 1, 1, 2, None, None, MISSING])
+            if x != MISSING: r[c] = x
+        rows.append(r)
+    meta = {"fam": "analytic", "wraps": [], "calls": [call], "part": part, "conds": [], "wmode": "plain", "wop": ">", "wlit": 0}
+    return {"meta": meta, "sql": "SELECT id, had_changed(%s, %s)%s AS a0 FROM stream" % ("true" if ign else "false", ", ".join(cols), over), "rows": rows}
+
+
 def nested_part_scen(rng):
     """PARTITION BY a nested column while the row also carries a top-level column named like its last segment"""
     fn = rng.choice(["lag", "acc_sum", "acc_count", "latest"])
@@ -214,6 +233,9 @@ def run(tier):
     for i in range(150 if quick else 3000):
         sc = star_scen(rng)
         scen.append(sc); scen.append(dict(sc, mode="sync"))
+    for i in range(150 if quick else 3000):
+        sc = cols_scen(rng)
+        scen.append(sc); scen.append(dict(sc, mode="sync"))
     for i in range(80 if quick else 1500):
         sc = nested_part_scen(rng)
         scen.append(sc); scen.append(dict(sc, mode="sync"))
@@ -228,7 +250,7 @@ def run(tier):
     res.cov["distinct_nontrivial"] = len({s["sql"] + json.dumps(s["rows"], sort_keys=True) for s in scen})
     res.cov["rule"] = ("seeded queries with 1-3 analytic calls (lag with offset/default/ignoreNull, latest, had_changed, changed_col, acc_sum/count/avg/min/max with start and reset conditions), "
                        "optional OVER (PARTITION BY k [WHEN cond]), optional analytic-free WHERE or a WHERE that itself calls an analytic function; 4-12 rows over 1-3 interleaved partitions with NULL / missing / int / float values; "
-                       "a WHERE that compares the same call text under two different OVER clauses (own state and partitioning per occurrence); had_changed / changed_col / lag / latest over list- and object-valued columns; "
+                       "a WHERE that compares the same call text under two different OVER clauses (own state and partitioning per occurrence); had_changed / changed_col / lag / latest over list- and object-valued columns; had_changed(ign, *) and had_changed(ign, c1, c2[, c3]) with NULL / absent columns anywhere in the list; "
                        "every scenario through Emit and through EmitSync; distinct = distinct (SQL, rows)")
     res.assumptions = ASSUME
     cfg = "SPECIFICATION Spec\nINVARIANTS Laws\nCHECK_DEADLOCK FALSE\n"
